@@ -61,6 +61,7 @@ class ClientEnv:
         base = {"response_future": fut, "send_on_connect": VBool(z3.Bool("self.send_on_connect"))}
         if cls == GP:
             base["url"] = VStr(z3.String("self.url"))
+            base["decode_body"] = VBool(z3.Bool("self.decode_body"))
         else:
             base["titan_url"] = VStr(z3.String("self.titan_url"))
             base["content"] = VBytes(z3.String("self.content"))
@@ -314,6 +315,9 @@ def add_targets(E, spec, pid, classes=(GP, TPc)):
                     parts += [is2x, rb.z == buf]
                 elif isinstance(rb, VStr):
                     parts += [is2x]
+                    db = o[p.oid].get("decode_body")
+                    if db is not None:
+                        parts.append(db.z)       # [C18] with decode_body False a body is never decoded: it is the bytes received
                     dec = ctx.ghost.get("decoded_from")
                     parts.append(z3.BoolVal(dec is not None and dec[0].eq(buf) and dec[1].eq(rb.z)))
                 else:
